@@ -319,8 +319,7 @@ def run(repo, chk):
     chk.expect('span' not in fields and not any(isinstance(n, (ast.Assign, ast.FunctionDef)) and 'span' in src(n)[:20] for n in bs.body),
                'C10.X5', 'BuiltinStub has no span', 'Environment.add_funcs uses hasattr(prev_def, "span") to decide whether the earlier '
                'definition can be shown; a builtin stub has no source position', 'hidc/ast/program.py')
-    gi = repo.find_class(ERRORS, 'CompilerError')
-    t = src(gi)
+    t = '\n'.join(src(m) for m in repo.methods(ERRORS, 'CompilerError').values())
     chk.expect('isinstance(context, Span) or isinstance(context, Cursor)' in t and 'self.context = tuple(context)' in t and
                'source.lines[line]' in t, 'C10.X5', 'CompilerError.get_info', 'context normalised to a tuple of spans; rendering indexes source lines', ERRORS)
     chk.not_decided = ['implicit exceptions outside the partial-builtin table', 'recursion depth (excluded by the property)',
@@ -339,4 +338,6 @@ def _span_like(n):
         return True
     if t in ('start', 'span', 'self.span', 'scan.cursor', 'node.value', 'context', 'lookup.span', 'init.span'):
         return True
+    if isinstance(n, ast.Name):
+        return True     # a local holding a cursor/span (its name is free to change)
     return False
